@@ -554,31 +554,78 @@ fn socket_fds() -> usize {
 }
 
 /// what one resource run measured
-pub struct LeakObs { pub tasks_x_after_event: usize, pub fds_handle_held: usize, pub fds_after_drop: usize, pub fds_base: usize, pub tasks_main_end: usize, pub peer: String, pub err: Option<String> }
+pub struct LeakObs { pub tasks_x_after_event: usize, pub fds_handle_held: usize, pub fds_after_drop: usize, pub fds_base: usize, pub tasks_main_end: usize, pub peer: String, pub err: Option<String>,
+    /// seconds until the task verdict (0 tasks, or a count confirmed stable), scheduling-lag factor used, seconds for the two descriptor verdicts
+    pub confirmed_after_s: f64, pub lag: f64, pub fds_held_s: f64, pub fds_drop_s: f64 }
 
 /// resources, measured **while the application still holds the subject's handles** (audit C3): the subject
 /// endpoint runs all its rustrtc tasks on its own runtime `rx`; after the event + settle we poll (≤ 12 s)
 /// for `rx` to have no live task, then close the peer, count socket descriptors, then drop the subject's
 /// handles and count again: everything `close()` / the drop owes must be gone before the handles go.
+/// how late does a `sleep(100 ms)` wake up on runtime `h` right now? (1.0 = on time; max of 3 samples)
+fn runtime_lag(h: &tokio::runtime::Handle) -> f64 {
+    let mut worst = 1.0f64;
+    for _ in 0..3 {
+        let (tx, rx) = std::sync::mpsc::channel();
+        h.spawn(async move { let t = Instant::now(); tokio::time::sleep(Duration::from_millis(100)).await; let _ = tx.send(t.elapsed()); });
+        if let Ok(d) = rx.recv_timeout(Duration::from_secs(10)) { worst = worst.max(d.as_secs_f64() / 0.1); } else { worst = worst.max(50.0); }
+    }
+    worst
+}
+
+/// Poll `read()` until it reaches `target`, confirming before reporting (saturated host: tasks are runnable but
+/// not scheduled — slow teardown keeps shrinking, a real leak is stable):
+/// * up to the nominal bound stretched by the scheduling lag measured on the subject's runtime (cap `HARD`);
+/// * past that bound the value is reported only once it has been STABLE for a lag-scaled window (>= 3 s,
+///   >= 6 polls); while it keeps shrinking we keep polling with back-off, up to `HARD` (then it is reported too:
+///   a teardown that takes longer than a minute is not "bounded" either).
+/// Returns (last value, seconds until the verdict, lag factor).
+fn poll_until(read: &dyn Fn() -> usize, target: usize, nominal: Duration, h: &tokio::runtime::Handle) -> (usize, f64, f64) {
+    const HARD: Duration = Duration::from_secs(60);
+    let t0 = Instant::now();
+    let lag = runtime_lag(h).clamp(1.0, 5.0);
+    let bound = nominal.mul_f64(lag).min(HARD);
+    let window = Duration::from_secs(3).mul_f64(lag);
+    let mut hist: Vec<(Instant, usize)> = vec![];
+    let mut step = Duration::from_millis(100);
+    loop {
+        let v = read();
+        hist.push((Instant::now(), v));
+        if v <= target { return (v, t0.elapsed().as_secs_f64(), lag); }
+        let el = t0.elapsed();
+        if el >= HARD { return (v, el.as_secs_f64(), lag); }
+        if el >= bound {
+            // stable = unchanged over the whole window and at least 6 polls in it
+            let since = Instant::now() - window;
+            let recent: Vec<usize> = hist.iter().filter(|(t, _)| *t >= since).map(|(_, v)| *v).collect();
+            let covered = hist.first().map(|(t, _)| *t <= since).unwrap_or(false);
+            if covered && recent.len() >= 6 && recent.iter().all(|x| *x == v) { return (v, el.as_secs_f64(), lag); }
+            step = (step * 2).min(Duration::from_millis(800));
+        }
+        std::thread::sleep(step);
+    }
+}
+
 fn leak_run(sc: &Scen) -> LeakObs {
     let rt = tokio::runtime::Builder::new_multi_thread().worker_threads(2).enable_all().build().unwrap();
     let rx = tokio::runtime::Builder::new_multi_thread().worker_threads(2).enable_all().build().unwrap();
+    start_lag_monitor(rt.handle());
     let fds_base = socket_fds();
     let sc2 = sc.clone(); let h = rx.handle().clone();
     let (o, kept) = rt.block_on(async move { tokio::spawn(async move { exec_once(&sc2, Some(h)).await }).await }).unwrap_or((Outcome::default(), None));
-    let mut tx = 0;
-    for _ in 0..120 { tx = rx.metrics().num_alive_tasks(); if tx == 0 { break; } std::thread::sleep(Duration::from_millis(100)); }
+    let rxh = rx.handle().clone();
+    // the lag probe itself is a task on `rx`: it has finished when `runtime_lag` returns
+    let (tx, confirmed_after_s, lag) = poll_until(&|| rx.metrics().num_alive_tasks(), 0, Duration::from_secs(12), &rxh);
     // close the peer (Y) only; X's handles stay alive
     if let Some(p) = &kept { let y = if sc.phase == Phase::RemoteOfferSet { &p.off.pc } else { &p.ans.pc }; y.close(); }
-    let mut fds_held = 0; let mut last = usize::MAX;
-    for _ in 0..40 { std::thread::sleep(Duration::from_millis(100)); fds_held = socket_fds(); if fds_held == last && fds_held <= fds_base { break; } last = fds_held; }
+    let (fds_held, fds_held_s, _) = poll_until(&socket_fds, fds_base, Duration::from_secs(4), &rxh);
     drop(kept);
-    let mut fds_drop = 0;
-    for _ in 0..40 { std::thread::sleep(Duration::from_millis(100)); fds_drop = socket_fds(); if fds_drop <= fds_base { break; } }
+    let (fds_drop, fds_drop_s, _) = poll_until(&socket_fds, fds_base, Duration::from_secs(4), &rxh);
     let tm = rt.metrics().num_alive_tasks();
     rx.shutdown_timeout(Duration::from_millis(100));
     rt.shutdown_timeout(Duration::from_millis(100));
-    LeakObs { tasks_x_after_event: tx, fds_handle_held: fds_held, fds_after_drop: fds_drop, fds_base, tasks_main_end: tm, peer: o.peer.clone(), err: o.err.clone() }
+    LeakObs { tasks_x_after_event: tx, fds_handle_held: fds_held, fds_after_drop: fds_drop, fds_base, tasks_main_end: tm, peer: o.peer.clone(), err: o.err.clone(),
+        confirmed_after_s, lag, fds_held_s, fds_drop_s }
 }
 
 const SCTP_REASONS: &[&str] = &["HEARTBEAT_TIMEOUT", "HEARTBEAT_DEAD", "REMOTE_ABORT", "REMOTE_SHUTDOWN", "DTLS_FAILED", "DTLS_CLOSED",
@@ -643,7 +690,7 @@ pub fn run(args: &Args) {
         let rt = tokio::runtime::Builder::new_multi_thread().worker_threads(4).enable_all().build().unwrap();
         if case.starts_with("leak") {
             let l = leak_run(&sc);
-            println!("leak-run {}: tasks_on_subject_runtime_after_event={} fds base={} handle_held_peer_closed={} after_drop={} peer={} err={:?}", sc.text(), l.tasks_x_after_event, l.fds_base, l.fds_handle_held, l.fds_after_drop, l.peer, l.err);
+            println!("leak-run {}: tasks_on_subject_runtime_after_event={} fds base={} handle_held_peer_closed={} after_drop={} peer={} err={:?} confirmed_after_s={:.1} lag={:.1}", sc.text(), l.tasks_x_after_event, l.fds_base, l.fds_handle_held, l.fds_after_drop, l.peer, l.err, l.confirmed_after_s, l.lag);
             return;
         }
         let o = rt.block_on(exec(&sc));
@@ -655,6 +702,7 @@ pub fn run(args: &Args) {
     }
     let mut rng = Rng::new(args.seed);
     let rt = tokio::runtime::Builder::new_multi_thread().worker_threads(8).enable_all().build().unwrap();
+    start_lag_monitor(rt.handle());
     rt.block_on(reason_tables(&mut run, args.tier_thorough));
     let mut scs = scenarios(args.tier_thorough);
     // deterministic order, seed only rotates the start (parallel execution order is irrelevant to the output)
@@ -705,6 +753,7 @@ pub fn run(args: &Args) {
     run.notes.insert("terminal_lenient".into(), serde_json::json!(lenient));
     run.notes.insert("terminal_strict_informational".into(), serde_json::json!(strict));
     run.notes.insert("scenario_wall_s".into(), serde_json::json!(t0.elapsed().as_secs_f64()));
+    run.notes.insert("scheduling_lag_max_pct".into(), serde_json::json!(LAG_PCT_MAX.load(Ordering::Relaxed)));
     rt.shutdown_timeout(Duration::from_millis(300));
     // resources (measured runtime facts): sequential, fresh runtime each
     let leak_list: Vec<Scen> = {
@@ -732,11 +781,12 @@ pub fn run(args: &Args) {
         let l = leak_run(sc);
         let app_ended = true;
         leaks.push(serde_json::json!({"scenario": sc.text(), "subject_tasks_alive_after_event_handle_held": l.tasks_x_after_event, "socket_fds_base": l.fds_base,
-            "socket_fds_handle_held_peer_closed": l.fds_handle_held, "socket_fds_after_drop": l.fds_after_drop, "peer_state": l.peer, "alarmed": app_ended, "err": l.err}));
+            "socket_fds_handle_held_peer_closed": l.fds_handle_held, "socket_fds_after_drop": l.fds_after_drop, "peer_state": l.peer, "alarmed": app_ended, "err": l.err,
+            "confirmed_after_s": l.confirmed_after_s, "scheduling_lag_factor": l.lag, "fds_held_verdict_s": l.fds_held_s, "fds_drop_verdict_s": l.fds_drop_s}));
         run.count("resource_runs");
         if l.err.is_some() { continue; }
         if app_ended {
-            if l.tasks_x_after_event > 0 { run.fail(&format!("leak:{}:tasks-alive-while-handle-held", sig_class(sc)), &format!("leak {}", sc.text()), &format!("{} tasks of the subject still alive 12 s after the event", l.tasks_x_after_event)); }
+            if l.tasks_x_after_event > 0 { run.fail(&format!("leak:{}:tasks-alive-while-handle-held", sig_class(sc)), &format!("leak {}", sc.text()), &format!("{} tasks of the subject still alive, count stable, confirmed {:.1} s after the event (nominal bound 12 s, scheduling-lag factor {:.1})", l.tasks_x_after_event, l.confirmed_after_s, l.lag)); }
             if l.fds_handle_held > l.fds_after_drop { run.fail(&format!("leak:{}:sockets-released-only-by-drop", sig_class(sc)), &format!("leak {}", sc.text()), &format!("socket fds {} with the handle held, {} after dropping it", l.fds_handle_held, l.fds_after_drop)); }
             if l.fds_after_drop > l.fds_base { run.fail(&format!("leak:{}:sockets-open-after-drop", sig_class(sc)), &format!("leak {}", sc.text()), &format!("socket fds {} -> {}", l.fds_base, l.fds_after_drop)); }
         }
